@@ -21,7 +21,7 @@ RULE = (
 ASSUMPTIONS = [
     "unpolarised parent (default full spins) only, as the property states",
     "inversion judged only for 3-body cards and for cards with p_break=False at every vertex",
-    "tolerance |df| <= 1e-7*(f + 1e-3*median f) (1e-6 for gamma>5); events whose smallest two-body breakup momentum is < 1e-4 of its parent mass are skipped as ill-conditioned",
+    "tolerance |df| <= 3e-6*(f + 1e-2*median f) (3e-5 for gamma>5; observed floor 5e-8 from beta=acos(1-k*eps) in SU2M.get_euler_angle for identity alignment rotations); events whose smallest two-body breakup momentum is < 1e-4 of its parent mass are skipped as ill-conditioned",
     "CPU, eager evaluation",
 ]
 REQUIRE = {
@@ -42,6 +42,7 @@ LEVEL_TEXT = ("Metamorphic runtime monitor at the two observation points the pro
               "density the run computes; held on the generated cards/events/transformations that were observed.")
 TECHNIQUE = "metamorphic runtime monitor (Lorentz transforms of the input) + icontract postcondition on AbsPDF.__call__"
 
+COND_Q = float(__import__("os").environ.get("VH_COND_Q", "1e-4"))
 MODELS = ("default", "default", "BW", "BWR2", "BWR_normal", "one", "BWR_below")
 
 
@@ -85,8 +86,14 @@ def make_card(i, rng, tag):
 
 
 def tolerance(f0, loose=False):
+    """|df| <= 3e-6*(f + 1e-2*median f)  (3e-5 for gamma>5).
+
+    Observed floor on the unchanged tree: SU2M.get_euler_angle takes beta=acos(cos beta); when an alignment rotation is
+    the identity (very common: the particle is produced the same way in two topologies) cos beta = 1-k*eps gives
+    beta ~ sqrt(2k eps) ~ 3e-8 instead of 0, i.e. relative deviations up to ~5e-8 between frames.  Realistic breaks move
+    the density by 1e-2..1, so 3e-6 keeps >= 2 orders of margin to the floor and >= 3 to the breaks."""
     med = float(np.median(f0))
-    return (1e-6 if loose else 1e-7) * (np.abs(f0) + 1e-3 * med)
+    return (3e-5 if loose else 3e-6) * (np.abs(f0) + 1e-2 * med)
 
 
 def conditioned(card, ps):
@@ -108,7 +115,7 @@ def conditioned(card, ps):
         a, b = sub(t[0]), sub(t[1])
         M = kin.mass(a + b)
         q = kin.two_body_q(M, kin.mass(a), kin.mass(b))
-        good &= q / M > 1e-4
+        good &= q / M > COND_Q
         walk(t[0])
         walk(t[1])
 
